@@ -257,7 +257,13 @@ func (s *srvSession) start(srv *signaling_rpc_server.Server, sendInit bool) {
 func (s *srvSession) startRegistered(srv *signaling_rpc_server.Server, old *srvSession) (ok bool) {
 	s.start(srv, true)
 	src, dst := gen.PeerID(s.who).String(), gen.PeerID(s.dst).String()
-	if !waitFor(8*time.Second, func() bool { return srv.VerifSessionSide(src, dst) }) {
+	// (a call that has already returned was refused: that is a result, not a registration that is still to come)
+	if !waitFor(8*time.Second, func() bool {
+		if e, _ := s.ended(); e {
+			return true
+		}
+		return srv.VerifSessionSide(src, dst)
+	}) {
 		return false
 	}
 	if old != nil {
@@ -392,6 +398,10 @@ func (s *srvListen) startRegistered(srv *signaling_rpc_server.Server) (ok bool) 
 		}()
 	}
 	return waitFor(8*time.Second, func() bool {
+		if e, _ := s.ended(); e {
+			// refused: a result, not a registration that is still to come
+			return true
+		}
 		l, n := srv.VerifListenState(id)
 		// operations are applied one at a time, so while a call was registered before only the new call's
 		// registration can change the nonce; without a registered call the new one shows up as listening
